@@ -54,6 +54,7 @@ ALLOWED_AXIOMS = {
     "ProofIrrelevance.proof_irrelevance",
     "ClassicalEpsilon.constructive_indefinite_description",
     "PropExtensionality.propositional_extensionality",
+    "Epsilon.epsilon_statement",      # Coq.Logic.Epsilon: choiceType structure on R (Common/Rstruct.v)
 }
 # primitive machine integers / floats / arrays used by coq-interval's evaluator
 ALLOWED_PRIMITIVE_PREFIXES = ("Uint63.", "PrimInt63.", "PrimFloat.", "Sint63.",
